@@ -1,10 +1,93 @@
-/- line-protocol handlers for the C17 Post models (stub; see Props/C17Post.lean) -/
-import FontVerif.Model.Base
+/- line-protocol handlers for the C17 "post part" models (Model/SubsetPost.lean; see Props/C17Post.lean)
+
+requests (space separated; `-` = empty; sections introduced by single capital letters):
+  c17.post2.stdnames                       -> the 258 standard names, hex, space separated
+  c17.post2 <flags> <nout> <maxOld | -> <srcGlyphs> M <new old>… T <hex post table>
+      -> `ok <hex of the emitted table>` | `dropped` | `trap` | `err` | `unmodelled`
+  c17.post2.name <gid> <hex post table>    read-fonts `Post::glyph_name`      -> `none` | `some <hex>`
+  c17.post2.iter <hex string data>         `VarLenArray<PString>::iter()`     -> items: hex | `-` (empty) | `E`; `.` if no item
+  c17.post2.get <idx> <hex string data>    `VarLenArray<PString>::get(idx)` collapsed  -> `none` | `some <hex>`
+  c17.head <locaFormat> <hex head>         `subset_head`                       -> hex | `none`
+  c17.head.noglyf <hex head>               `Head::subset`                      -> hex | `none`
+  c17.hhea <newNumHMetrics> <hex hhea>     hhea tail of `Hmtx::subset`         -> hex | `none`
+  c17.maxp2 <flags> <nout> <hex maxp>      = `c17.maxp` plus the read-back fields  -> `<hex> numGlyphs=<n>` | `none`
+  c17.vorg <srcGlyphs> <nout> M <new old>… T <hex VORG>   -> `ok <hex>` | `dropped` | `err`
+  c17.vorg.read <gid> <hex VORG>           `Vorg::vertical_origin_y` (raw u16) -> `none` | `<n>`
+  c17.vmtx <hex>                           pass-through                        -> hex
+-/
+import FontVerif.Model.SubsetPost
+import FontVerif.Drv.C17Gvar
 namespace FontVerif.Drv.C17Post
-open FontVerif
+open FontVerif FontVerif.Subset FontVerif.SubsetPost
+open FontVerif.Drv.C17Gvar (sections pairList)
+
+def fmtItem : Option Bytes → String
+  | none => "E"
+  | some b => toHex b
+
+def fmtOpt : Option Bytes → String
+  | none => "none"
+  | some b => s!"some {toHex b}"
 
 def handle (cmd : String) (args : List String) : Option String :=
   match cmd with
+  | "c17.post2.stdnames" =>
+    if args.isEmpty then some (" ".intercalate (stdNames.map toHex)) else none
+  | "c17.post2" => do
+    let [hd, m, t] ← sections ["M", "T"] args | none
+    let [f, n, mo, sg] := hd | none
+    let [tt] := t | none
+    let maxOld ← if mo = "-" then some none else (parseNat? mo).map some
+    let inp : PostIn := { flags := ← parseNat? f, nout := ← parseNat? n, maxOld, n2o := ← pairList m,
+                          srcGlyphs := ← parseNat? sg, t := ← parseHex? tt }
+    match subsetPost inp with
+    | .error e => some e
+    | .ok b => some s!"ok {toHex b}"
+  | "c17.post2.name" => do
+    let [g, h] := args | none
+    some (fmtOpt (glyphName (← parseHex? h) (← parseNat? g)))
+  | "c17.post2.iter" => do
+    let [h] := args | none
+    let items := pstrAll (← parseHex? h)
+    some (if items.isEmpty then "." else " ".intercalate (items.map fmtItem))
+  | "c17.post2.get" => do
+    let [i, h] := args | none
+    some (fmtOpt (pstrGet (← parseHex? h) (← parseNat? i)))
+  | "c17.head" => do
+    let [f, h] := args | none
+    match subsetHead (← parseHex? h) (← parseNat? f) with
+    | none => some "none"
+    | some b => some (toHex b)
+  | "c17.head.noglyf" => do
+    let [h] := args | none
+    match subsetHeadNoGlyf (← parseHex? h) with
+    | none => some "none"
+    | some b => some (toHex b)
+  | "c17.hhea" => do
+    let [n, h] := args | none
+    match subsetHhea (← parseHex? h) (← parseNat? n) with
+    | none => some "none"
+    | some b => some (toHex b)
+  | "c17.maxp2" => do
+    let [f, n, h] := args | none
+    match subsetMaxp (← parseNat? f) (← parseNat? n) (← parseHex? h) with
+    | none => some "none"
+    | some b => some s!"{toHex b} numGlyphs={maxpNumGlyphs b}"
+  | "c17.vorg" => do
+    let [hd, m, t] ← sections ["M", "T"] args | none
+    let [sg, n] ← parseNats? hd | none
+    let [tt] := t | none
+    match subsetVorg (← pairList m) sg n (← parseHex? tt) with
+    | .error e => some e
+    | .ok b => some s!"ok {toHex b}"
+  | "c17.vorg.read" => do
+    let [g, h] := args | none
+    match vorgOriginY (← parseHex? h) (← parseNat? g) with
+    | none => some "none"
+    | some v => some (toString v)
+  | "c17.vmtx" => do
+    let [h] := args | none
+    some (toHex (passthrough (← parseHex? h)))
   | _ => none
 
 end FontVerif.Drv.C17Post
